@@ -4,8 +4,10 @@ import AwsVerif.Model.Xml
 namespace Driver.XmlD
 open AwsVerif.Xml Driver
 
-def actOf? : String → Option Action
-  | "d" => some .descend | "b" => some .body | "s" => some .skip | "a" => some .abort
+/-- action letter ↦ (action, the callback ignores a failing traverse); `D` = descend, discard the result, return 0 -/
+def actOf? : String → Option (Action × Bool)
+  | "d" => some (.descend, false) | "b" => some (.body, false) | "s" => some (.skip, false) | "a" => some (.abort, false)
+  | "D" => some (.descend, true)
   | _ => none
 
 /-- `/` ↦ [], `/0/2` ↦ [0,2] -/
@@ -15,7 +17,7 @@ def pathOf? (s : String) : Option (List Nat) :=
   | "" :: rest => rest.mapM (fun x => x.toNat?)
   | _ => none
 
-def parseProg? (s : String) : Option Prog :=
+def parseProg? (s : String) : Option (Prog × (List Nat → Bool) × Bool) :=
   match s.splitOn "," with
   | [] => none
   | d :: es => do
@@ -23,7 +25,8 @@ def parseProg? (s : String) : Option Prog :=
     let tbl ← es.mapM (fun e => match e.splitOn ":" with
       | [p, a] => do let p ← pathOf? p; let a ← actOf? a; pure (p, a)
       | _ => none)
-    pure (fun path => match tbl.find? (·.1 == path) with | some (_, a) => a | none => dflt)
+    let look := fun (path : List Nat) => match tbl.find? (·.1 == path) with | some (_, a) => a | none => dflt
+    pure (fun path => (look path).1, fun path => (look path).2, dflt.2 || tbl.any (·.2.2))
 
 def errName : Err → String
   | .none => "AWS_ERROR_SUCCESS"
@@ -38,9 +41,9 @@ def showView : View → String
   | some c => s!" {c.off}:{c.len}"
 
 def showEvent (doc : Bytes) (e : Event) : List String :=
-  [s!"P node d={e.depth} name={hexOf (viewBytes doc (some e.name))} na={e.attrs.length}"] ++
+  [s!"P node d={e.path.length + 1} name={hexOf (viewBytes doc (some e.name))} na={e.attrs.length}"] ++
   e.attrs.map (fun a => s!"P attr {hexOf (viewBytes doc a.name)} {hexOf (viewBytes doc a.value)}") ++
-  ["W views" ++ showView (some e.name) ++ String.join (e.attrs.map (fun a => showView a.name ++ showView a.value))] ++
+  [s!"W stack={e.depth} views" ++ showView (some e.name) ++ String.join (e.attrs.map (fun a => showView a.name ++ showView a.value))] ++
   (match e.body with
    | some b => [s!"P body {hexOf (viewBytes doc b)}", "W bodyv" ++ showView b]
    | none => [])
@@ -55,8 +58,9 @@ def step (_ : Unit) (t : List String) : Unit × List String :=
   match t with
   | ["xml", md, d, p] =>
     match parseSize? md, parseHex? d, parseProg? p with
-    | some md, some doc, some prog =>
-      let ls := showResult doc (parse doc prog md)
+    | some md, some doc, some (prog, ign, anyIgn) =>
+      -- programs without `D` run the function the theorems are about
+      let ls := showResult doc (if anyIgn then parseIgn doc prog ign md else parse doc prog md)
       -- an empty document is parsed a second time as {NULL,0}
       ((), if doc.isEmpty then ls ++ ["W nulldoc"] ++ ls else ls)
     | _, _, _ => ((), ["bad-op"])
